@@ -216,6 +216,16 @@ func (s *nspStore) get(name string) (nsp *Namespace, ok bool) {
 	return
 }
 
+func (s *nspStore) getAll() (nsps []*Namespace) {
+	s.mu.Lock()
+	defer s.mu.Unlock()
+	nsps = make([]*Namespace, 0, len(s.nsps))
+	for _, nsp := range s.nsps {
+		nsps = append(nsps, nsp)
+	}
+	return
+}
+
 func (s *nspStore) remove(name string) {
 	s.mu.Lock()
 	defer s.mu.Unlock()
